@@ -19,7 +19,7 @@ RULE = (
     "roMetadataReplace) x running-order-ID pattern in {all equal, one other message deviates, the "
     "roDelete deviates, a second roCreate deviates, the only roCreate deviates} x allow_incomplete in "
     "{False, True}, including the empty list, message IDs distinct and supplied in shuffled order; "
-    "(a') the small lists again through from_files, plain and with each document in turn listed twice (the same path twice); (b) Hypothesis multisets with up to 6 of each.  Every batch is evaluated in three FRESH "
+    "(a') the small lists again through from_files, plain and with each document in turn listed twice (the same path twice), and through MosCollection(readers) given the caller's reader list a second time; (b) Hypothesis multisets with up to 6 of each.  Every batch is evaluated in three FRESH "
     "interpreters started as `python`, `python -O` and `python -OO`.  Oracle: accepted <=> one roID "
     "and exactly one roCreate and <= 1 roDelete and (allow_incomplete or exactly one roDelete); "
     "otherwise InvalidMosCollection; after acceptance mc.ro.message_id is the roCreate's, mc.ro is a "
@@ -27,7 +27,7 @@ RULE = (
     "across the three interpreter configurations.  Non-trivial = anything but a plain valid list "
     "under the default interpreter: a count >= 2 or == 0, mixed IDs, the empty list, or -O/-OO.")
 ASSUMPTIONS = ['message IDs are distinct, except that the same document may be listed twice', 'each document is individually classifiable']
-MANDATORY = ['blank-roID-among-others', 'same-document-twice', 'source:files', 'completed-roCreate', 'flags:-O', 'flags:-OO', 'empty-list', 'two-roCreates', 'two-roDeletes', 'no-roCreate',
+MANDATORY = ['source:readers-twice', 'blank-roID-among-others', 'same-document-twice', 'source:files', 'completed-roCreate', 'flags:-O', 'flags:-OO', 'empty-list', 'two-roCreates', 'two-roDeletes', 'no-roCreate',
              'mixed-ids', 'valid-complete', 'valid-incomplete-allowed', 'incomplete-not-allowed',
              'roReplace-present']
 
@@ -51,6 +51,16 @@ for docs, ai, source in json.load(sys.stdin):
                     open(p, 'w', encoding='utf-8').write(d)
                 paths.append(p)
             mc = MosCollection.from_files(paths, allow_incomplete=ai)
+        elif source == 'readers-twice':
+            # the caller's own reader list, used for a first attempt (without allow_incomplete)
+            # and then again: the second construction must see the same list
+            from mosromgr.moscollection import MosReader
+            readers = [MosReader.from_string(d) for d in docs]
+            try:
+                MosCollection(readers, allow_incomplete=False)
+            except Exception:
+                pass
+            mc = MosCollection(readers, allow_incomplete=ai)
         else:
             mc = MosCollection.from_strings(docs, allow_incomplete=ai)
         out.append(['ok', mc.ro.message_id, [r.message_id for r in mc.mos_readers], type(mc.ro).__name__])
@@ -113,6 +123,11 @@ def make_case(nc, nd, no, pattern, ai, perm_seed=0, other_off=0, completed=False
         if nc != 1 or len(kinds) < 2:
             return None
         ro_ids[0] = 'RO2'
+    elif pattern == 'other-padded':
+        # the same characters plus a trailing blank / a line break: another ID
+        if no == 0:
+            return None
+        ro_ids[nc + nd] = ('RO1 ', '\n  RO1\n  ', ' RO1', 'ro1')[(perm_seed + other_off + no) % 4]
     elif pattern == 'other-blank':
         if no == 0:
             return None
@@ -195,6 +210,10 @@ def classes_of(case, flags):
 
 def judge_outcome(case, flags, got):
     exp = oracle(case)
+    if case.get('source') == 'readers-twice' and got[0] == 'ok':
+        # the direct constructor keeps the caller's order (sorting is what the from_* constructors
+        # add, C10): only acceptance, the running order and the SET of remaining readers are judged
+        got = [got[0], got[1], sorted(got[2]), got[3]]
     if got == exp:
         return []
     k = case['meta']['kinds']
@@ -238,7 +257,7 @@ def run(tier, seed, procs):
     cases = []
     top = 3 if quick else 4
     pats = ['all-equal', 'other-deviates', 'delete-deviates', 'second-create-deviates', 'only-create-deviates',
-            'other-blank', 'delete-blank']
+            'other-blank', 'delete-blank', 'other-padded']
     for nc, nd, no, pat, ai in itertools.product(range(top + 1), range(top + 1), range(top + 1),
                                                  pats, (False, True)):
         for ps in ((0,) if quick else (0, 1, 2, 3)):
@@ -249,6 +268,10 @@ def run(tier, seed, procs):
                 c2 = make_case(nc, nd, no, pat, ai, perm_seed=ps + seed, other_off=ps, completed=True)
                 if c2 is not None:
                     cases.append(c2)
+            if nc <= 2 and nd <= 2 and no <= 2 and pat in ('all-equal', 'other-deviates'):
+                c4 = make_case(nc, nd, no, pat, ai, perm_seed=ps + seed, other_off=ps, source='readers-twice')
+                if c4 is not None:
+                    cases.append(c4)
             if nc <= 2 and nd <= 2 and no <= 2 and pat == 'all-equal':
                 # from files, plain and with each document in turn listed twice
                 for dup in [None] + list(range(nc + nd + no)):
